@@ -128,7 +128,7 @@ def feature_members(case):
     return "members=%d" % len(case["members"])
 
 
-def check_target(label, target, union, part, case, cfilter_name, navigation=True):
+def check_target(label, target, union, part, case, cfilter_name, navigation=True, lenient_get=()):
     """all calls on one access path (composite / environment / store) against the union model"""
     from stix2 import Filter
     cf, cpred = CFILTERS[cfilter_name]
@@ -150,7 +150,12 @@ def check_target(label, target, union, part, case, cfilter_name, navigation=True
                            dict(c, id=id_), sorted(vers, key=str), sorted(set(gav), key=str))
         if len(gav) != len(set(gav)):
             part.violation("C18/all_versions/duplicates/%s" % feat, "a distinct (id, version) is returned more than once", dict(c, id=id_), sorted(vers, key=str), sorted(gav, key=str))
-        if cfilter_name is None:
+        if id_ in lenient_get:
+            # a member applies its attached filter AFTER picking its newest version (established behaviour, treated the same way in C12): for an id one of whose
+            # versions is hidden by a member-level filter, get may answer None or any visible version - never a hidden one
+            if g is not None and key(g) not in vers:
+                part.violation("C18/get-ignores-composite-filter/%s" % feat, "get returns a version excluded by a filter attached to a member composite", dict(c, id=id_), sorted(vers, key=str), key(g))
+        elif cfilter_name is None:
             want = max(vers, key=lambda k: k[1]) if vers else None
             got = None if g is None else key(g)
             part.outcome("get:" + ("none" if got is None else "latest" if got == want else "not-latest"))
@@ -270,6 +275,22 @@ def run_config(case, part):
             outer.add_data_source(cds)
             target = outer
         check_target("composite" if not case.get("nested") else "nested-composite", target, union, part, case, cfn)
+        chf = case.get("child_filter")
+        if chf and len(members) == 2:
+            # a nested composite that carries its OWN filter, next to an unfiltered sibling member of the same parent (both attachment orders):
+            # the child's filter applies to the child's members only
+            child = CompositeDataSource()
+            child.add_data_source(fx.sources[0])
+            child.filters.add(Filter(*CFILTERS[chf][0]))
+            parent = CompositeDataSource()
+            for i in order:
+                parent.add_data_source(child if i == 0 else fx.sources[1])
+            visible = sorted({n for n in members[0] if CFILTERS[chf][1](ELEMS[n])} | set(members[1]))
+            hidden_ids = {ELEMS[n]["id"] for n in members[0] if not CFILTERS[chf][1](ELEMS[n])}
+            check_target("parent-of-filtered-child-and-sibling", parent, visible, part, case, None, navigation=False, lenient_get=hidden_ids)
+            check_target("filtered-child-afterwards", child, sorted(set(members[0])), part, dict(case, members=[sorted(set(members[0]))]), chf, navigation=False)
+            check_target("sibling-afterwards", fx.sources[1], sorted(set(members[1])), part, dict(case, members=[sorted(set(members[1]))]), None, navigation=False)
+            return
         pf = case.get("parent_filter")
         if pf:
             # SEQUENCE: the composite is first used through a filtered parent (a composite, then an Environment with add_filters), afterwards directly and
@@ -417,6 +438,11 @@ def run(run):
     for members in assignments(["X1", "X3", "Y", "I", "R1"], 2):
         for pf in ("name!=x3", "type!=identity"):
             cases.append({"members": members, "parent_filter": pf, "environment": False})
+    # (c2b) a filtered nested composite next to an unfiltered sibling, both attachment orders
+    for members in assignments(["X1", "X3", "Y", "I", "R1"], 2):
+        for chf in ("name!=x3", "type!=identity"):
+            for order in ([0, 1], [1, 0]):
+                cases.append({"members": members, "child_filter": chf, "order": order, "environment": False})
     # (c3) versions that differ below the millisecond, over 2 and 3 members
     for members in assignments(["X1", "X3", "X3us", "R1", "R1us", "Y"], 2):
         cases.append({"members": members, "environment": len(members[0]) == 3, "env_navigation": True})
